@@ -731,6 +731,13 @@ impl ReCompiler {
                     || quantifier_type == Some('*')
                     || (quantifier_type == Some('{') && self.bracket_min == 0)
                 {
+                    // a reluctant marker belongs to the quantifier we are dropping
+                    if self.idx < self.len
+                        && self.pattern[self.idx] == '?'
+                        && self.re_flags.language() == Language::XPath
+                    {
+                        self.idx += 1;
+                    }
                     return Ok(Operation::from(Nothing));
                 } else {
                     quantifier_type = None
